@@ -1010,6 +1010,16 @@ def main(out_path):
             w(kernel('src_is_%s_db' % short, [(var, 'string')], [ast.Return(value=t2.values[0])]))
     soft('Terrapin name tests and direction selection (post_process_findings)', ['C04'], ex_terrapin_preds)
 
+    def ex_terrapin_marker():
+        # post_process_findings(): which strict-KEX marker counts for which role
+        mk = [n for n in ast.walk(pp) if isinstance(n, ast.If) and len(n.body) == 1 and ast.unparse(n.body[0]) == 'kex_strict_marker = True']
+        need(len(mk) == 1 and isinstance(mk[0].test, ast.BoolOp) and isinstance(mk[0].test.op, ast.And) and len(mk[0].test.values) == 2 and ast.unparse(mk[0].test.values[0]) == 'algs.ssh2kex is not None'
+             and any(ast.unparse(n) == 'kex_strict_marker = False' for n in ast.walk(pp)), 'post_process_findings: the strict-KEX marker test')
+        asg = [n for n in ast.walk(pp) if isinstance(n, ast.Assign) and ast.unparse(n.targets[0]) == 'kex_strict_marker']
+        need(len(asg) == 2, 'post_process_findings: kex_strict_marker assigned elsewhere')
+        w(kernel('src_has_marker', [('client_audit', 'bool'), ('kex_algorithms', 'list string')], [ast.Return(value=mk[0].test.values[1])], inputs={'algs.ssh2kex.kex_algorithms': ('kex_algorithms', 'list string')}))
+    soft('strict-KEX marker test per role (post_process_findings)', ['C04'], ex_terrapin_marker)
+
     def ex_rank():
         mn = func_node(t_main, 'main')
         ifs = [n for n in ast.walk(mn) if isinstance(n, ast.If) and 'ranked_return_codes.index' in ast.unparse(n.test)]
